@@ -12,6 +12,7 @@ import Nsl.Model.Lower
 import Nsl.Model.CoreSem
 import Nsl.Model.Names
 import Nsl.Model.Opt
+import Nsl.Model.Link
 import Nsl.Gen.Grammar
 /-!
 # Line-protocol driver: one request per line on stdin, one answer per line on stdout.
@@ -101,6 +102,33 @@ def decArgs : Sexp → Option (List Val)
 def restOfLine (line : String) (n : Nat) : String :=
   " ".intercalate ((line.splitOn " ").drop n)
 
+/-! ### C16 -/
+
+def dummyFn (n : String) : Func := ⟨n, [], .void, []⟩
+
+def csv (s : String) : List String := if s == "-" then [] else s.splitOn ","
+
+/-- `link m0 : f1,f2 : - ; m1 : f3 : m0 ;; m1 extra0` -/
+def doLink (line : String) : String :=
+  match line.splitOn " ;; " with
+  | [mods, added] =>
+    let entries := (mods.splitOn " ; ").filterMap fun e =>
+      match (e.splitOn " : ").map (fun (t : String) => t.trimAscii.toString) with
+      | [name, fs, imps] => some (name, ({ funcs := ((if fs == "-" then [] else fs.splitOn "!")).map (fun n => (n, dummyFn n)), globals := [], imports := csv imps } : Link.LModule))
+      | _ => none
+    let loader : Link.Loader := fun n => (entries.find? (fun p => p.1 == n)).map (·.2)
+    let addedMods := ((added.splitOn " ").filter (· != "")).filterMap fun n =>
+      if n.startsWith "extra" then some ({ funcs := [(n, dummyFn n)], globals := [], imports := [] } : Link.LModule) else loader n
+    match Link.link loader 10000 addedMods with
+    | .ok s =>
+      let names := (s.funcs.map (·.1)).toArray.qsort (· < ·) |>.toList
+      let loads := s.loaded.toArray.qsort (· < ·) |>.toList
+      "ok " ++ ",".intercalate names ++ " | " ++ ",".intercalate loads
+    | .error e => "error " ++ (match e with
+        | .dupFunction n => "dup-function " ++ n | .dupGlobal n => "dup-global " ++ n
+        | .missing n => "missing " ++ n | .fuel => "fuel")
+  | _ => "error syntax"
+
 def handle (st : DState) (line : String) : DState × String :=
   let toks := (line.splitOn " ").filter (· != "")
   match toks with
@@ -144,6 +172,7 @@ def handle (st : DState) (line : String) : DState × String :=
   | "flow" :: _ => (st, Flow.run (restOfLine line 1))
   | "static" :: _ => (st, Static.run (restOfLine line 1))
   | "names" :: _ => (st, Names.run (restOfLine line 1))
+  | "link" :: _ => (st, doLink (restOfLine line 1))
   | "mod" :: _ =>
     match (Sexp.parse (restOfLine line 1)).bind Codec.decModule with
     | some m => ({ st with mod := some m, prog := some (Lower.lowerModule m) }, "ok")
